@@ -662,7 +662,7 @@ func (w *bmWorker) run(c *bmCase, decoy string, fail func(key, what string, got 
 		if err == nil {
 			fail("import-accepted", "import of a forest violating the precondition (page exists, pages ordered) was accepted", nil)
 		}
-		if _, e := os.Stat(d1); e == nil {
+		if _, e := os.Stat(d1); e == nil && err != nil {
 			fail("import-rejected-output", "rejected import left an output file", nil)
 		}
 	} else if err != nil {
